@@ -170,6 +170,15 @@ func histWorld(t *testing.T, res *vh.Result, tr *vh.Trace, wi int, nblocks int) 
 			w.observe(n, h)
 		}
 	}
+	if smallMTB {
+		// scripted (every run): range search over the storage under the root of a height the collector has been over
+		h := uint32(2)
+		for _, via := range []string{"raw", "client"} {
+			w.o.findStorage(win, win.srvs[0], via, false, h, true, w.hs[h-1].root, w.hashOf[-7], -7, w.nameOf[-7], nil, 0)
+		}
+		w.o.getStorage(win, win.srvs[0], h, true, w.hs[h-1].root, w.hashOf[-7], -7, w.nameOf[-7], []byte{10})
+		res.Inc("collected_root_probes", 3)
+	}
 	res.Traces++
 	if wi < 2 {
 		res.Sample(map[string]any{"world": w.o.w, "srih": srih, "small_mtb": smallMTB, "blocks": nblocks, "tx_kinds": w.gen.Stats,
